@@ -411,16 +411,16 @@ func (v Value) assign(t Type) Value {
 		switch t {
 		case TypeFloat64:
 			return Value{t: t, num: v.num}
-		case TypeInt32:
-			return Value{t: t, num: float64(int32(v.num))}
+		case TypeInt32: // (through int64: a shifted constant wider than the type wraps, as the typed shift would)
+			return Value{t: t, num: float64(int32(int64(v.num)))}
 		case TypeUint32:
-			return Value{t: t, num: float64(uint32(v.num))}
+			return Value{t: t, num: float64(uint32(int64(v.num)))}
 		case TypeInt8:
-			return Value{t: t, num: float64(int8(v.num))}
+			return Value{t: t, num: float64(int8(int64(v.num)))}
 		case TypeUint8:
-			return Value{t: t, num: float64(uint8(v.num))}
+			return Value{t: t, num: float64(uint8(int64(v.num)))}
 		default:
-			return Value{t: TypeInt32, num: float64(int32(v.num))}
+			return Value{t: TypeInt32, num: float64(int32(int64(v.num)))}
 		}
 	case v.t != TypeNil:
 		return v
@@ -524,13 +524,11 @@ func (v Value) opMod(b Value) Value {
 }
 
 // shiftOperands returns the result type and count of a shift: the result keeps the
-// type of the shifted operand (an untyped constant adopts the type of the count),
-// the count may have any integer type and must not be negative.
+// type of the shifted operand (an untyped constant stays untyped: it takes its type
+// from where the shift is used, never from the count), the count may have any
+// integer type and must not be negative.
 func shiftOperands(v, b Value) (Type, uint) {
 	t := v.t
-	if t&typedNumberMask == 0 {
-		t = mixType(v.t, b.t)
-	}
 	if b.num < 0 {
 		panic("negative shift amount")
 	}
@@ -551,7 +549,11 @@ func (v Value) opBitLsh(b Value) Value {
 	case TypeUint8:
 		return Value{t: t, num: float64(byte(v.num) << n)}
 	default:
-		return Value{t: untypedInt, num: float64(int(v.num) << n)}
+		r := int(v.num) << n
+		if b.t != untypedInt { // a constant shifted by a variable: wraps like the widest integer type, so that it converts to any of them as the typed shift would
+			r = int(int32(r))
+		}
+		return Value{t: untypedInt, num: float64(r)}
 	}
 }
 func (v Value) opBitRsh(b Value) Value {
